@@ -41,12 +41,13 @@ RULE = (
 ASSUMPTIONS = [
     "the tree is read through Structure.branches / .modifier and Token.name / .value (the public shape of the parse result)",
     "payload 'a'*n is harmless in every literal kind (checked at run time against 'b'*n: exactly one token may differ)",
-    "the secondary transpile-level comparison is informational only",
+    "transpile-level comparison: generated Python of C[p] must equal that of C['a'] up to one constant (wherever it is emitted) and random ids",
 ]
 MIN_COUNTERS = {
     "parse_compared": {"quick": 30000, "thorough": 60000},
     "tokens_compared": {"quick": 30000, "thorough": 60000},
     "contexts_located": {"quick": 40, "thorough": 40},
+    "secondary_transpile_compared": {"quick": 3000, "thorough": 3000},
 }
 UNIT_TIMEOUT = 600
 
@@ -54,10 +55,10 @@ RANDOM_UNIT = 2000
 EXTRA_PAYLOADS = {
     "string": ["`", "\\", "`|", "\\|", "|`", "\\`", "|\\", "«", "»", "#", "‛", "\n", "a|", "|a", "|||"],
     "twochar": ["`|", "\\`", "#|", "‛|", "«|", "|\n", "\\|", "|\\", "|a", "a|"],
-    "char": ["`", "\\", "#", "«", "»", "‛", "⁺", "\n", "→", "k"],
+    "char": ["`", "\\", "#", "«", "»", "‛", "⁺", "\n", "→", "k", "+", "∇", "W", "$", "!"],
     "cstring": ["»", "`", "#", "\\", "\\|", "|\\", "‛", "\n", "a|", "|a", "|||"],
     "cnumber": ["«", "`", "#", "\\", "\\|", "|\\", "‛", "\n", "a|", "|a", "|||"],
-    "cpnumber": ["`", "\\", "#", "«", "»", "‛", "⁺", "\n", "→", "k"],
+    "cpnumber": ["`", "\\", "#", "«", "»", "‛", "⁺", "\n", "→", "k", "+", "∇", "W"],
     "comment": ["`", "\\", "#", "«", "»", "‛", "⁺", "`|", "«|", "\\|", "|\\", "→", "a|", "|a", "|||"],
 }
 
@@ -313,12 +314,20 @@ def secondary_transpile(ctx, kind, payload, res):
         if len(pairs) > limit:
             what = "second-constant"
     if what:
-        key = f"secondary_transpile_differs:{what}:{kind}"
+        # promoted to a verdict by the lead: the statement's second sentence ("changes only the value
+        # that one literal pushes") is about behaviour, and generated code that differs from the harmless
+        # variant in anything but that one constant changes more than the pushed value (seen on the pinned
+        # tree: a character literal used as a modifier operand received the arity of the element it spells)
+        key = f"codegen_differs:{what}:{kind}"
         c[key] = c.get(key, 0) + 1
-        sec = res.setdefault("_secondary", [])
-        if c[key] <= 1 and len(sec) < 4:
-            sec.append({"secondary": f"generated Python differs from the harmless variant by more than the literal ({what})",
-                        "program": prog, "kind": kind})
+        if c[key] <= 3 and len(res["violations"]) < 20:
+            res["violations"].append({
+                "mechanism": f"codegen:{what}:{kind}",
+                "what": f"generated Python of {prog!r} differs from the variant with a harmless payload by more than "
+                        f"the literal's constant ({what})",
+                "unit": {"kind": "single", "ctx": ctx["id"], "lit": kind, "payload": payload, "codegen": True},
+                "program": prog, "literal_kind": kind,
+            })
 
 
 def run_unit(unit):
@@ -367,6 +376,8 @@ def _run_exhaustive(unit, res):
             if any(ch in P.SYNTAX_CHARS for ch in payload):
                 res["distinct"] += 1
             if len(payload) == 1 and verdict == "held":
+                secondary_transpile(ctx, kind, payload, res)
+            elif verdict == "held" and (sum(map(ord, payload)) % 7 == 0):
                 secondary_transpile(ctx, kind, payload, res)
     if located_all:
         c["contexts_located"] = 1
@@ -419,6 +430,8 @@ def _run_single(unit, res):
         return
     check_case(ctx, kind, payload, loc, res, lambda p: unit)
     res["evals"] += 1
+    if unit.get("codegen"):
+        secondary_transpile(ctx, kind, payload, res)
     res["distinct"] += 2
 
 
